@@ -30,9 +30,9 @@ PROPS = {
         "assumptions": ["VertexNeighbors is called with level < cell level (C++ contract)"],
     },
     "C11": {
-        "translators": ["translator_c01"],
+        "translators": ["translator_c01", "translator_c10"],
         "generators": [("c11", 6000, 200000), ("c11b", 600, 20000)],
-        "modules": ["S2.CellID", "S2.CellUnion", "S2.CellIndex", "S2.Intersect"],
+        "modules": ["S2.Generated.CellUnionLoops", "S2.CellID", "S2.CellUnion", "S2.CellIndex", "S2.Intersect"],
         "rule": "adversarial multisets of valid cell ids (duplicates, complete / incomplete sibling groups, cascades over several "
                 "levels, nested cells, whole faces, curve neighbours), pairs derived from one another; c11b: CellIndex (nested cells with equal / different "
                 "labels, duplicates, sibling groups, faces, face seams, first / last leaf, empty index; range, non-empty-range, "
@@ -200,13 +200,13 @@ PROPS = {
                         "SignDotProd: |a|^2 <= 2 and |b|^2 <= 2; CompareDistance: r is a valid chord angle (0..4, -1 or +Inf), not NaN"],
     },
     "C19": {
-        "translators": ["translator_c19"],
+        "translators": ["translator_c19", "translator_c10", "translator_c16"],
         # c19: n cases (+ n/20 math.Remainder self-checks), ~900-1000 oracle lines/s on 16 cores;
         # c19cap: n cap cases (+ n/10 ChordAngle arithmetic lines), ~300 lines/s (exact 2148-bit rational judge)
         # c19capsearch: the same cap cases judged natively in Go (library + exact rational membership of Union / AddCap), ~7000 cases/s;
         #   it emits a `cap` line only for a FAILING case (which the oracle then flags), so a clean run adds no evaluations
         "generators": [("c19", 24000, 450000), ("c19cap", 4000, 45000), ("c19capsearch", 30000, 1000000)],
-        "modules": ["S2.F64", "S2.F64Extra", "S2.Interval", "S2.CapM", "S2.Exact", "S2.STUV"],
+        "modules": ["S2.Generated.CapFns", "S2.F64", "S2.F64Extra", "S2.Interval", "S2.CapM", "S2.Exact", "S2.STUV"],
         "rule": "INTERVALS / RECTANGLES: pairs of r1 / s1 intervals, r2 rectangles and lat-lng rectangles drawn from {empty (canonical and "
                 "non-canonical), full, singleton, inverted, ordinary} with endpoints from {+-pi, +-pi/2, 0, -0, 0..2 ulps around those, "
                 "denormal / tiny, multiples of pi/4, uniform}; the second operand is independent or derived from the first (equal, "
@@ -544,8 +544,9 @@ PROPS = {
     "C10": {
     # (generator, quick n, thorough n); measured 48000 lines in 46 s on 16 cores (generator + oracle);
     # c10long = long-edge loops only (RectBounder latitude budget, finding F1): 32000 lines in 40 s
-    "generators": [("c10", 36000, 500000), ("c10long", 6000, 400000)],
-    "modules": ["S2.Bounds", "S2.Interval", "S2.Contain", "S2.Pred", "S2.Exact", "S2.STUV", "S2.F64", "S2.F64Extra", "S2.CellID"],
+    "translators": ["translator_c10"],
+     "generators": [("c10", 36000, 500000), ("c10long", 6000, 400000)],
+    "modules": ["S2.Generated.BoundsFns", "S2.Bounds", "S2.Interval", "S2.Contain", "S2.Pred", "S2.Exact", "S2.STUV", "S2.F64", "S2.F64Extra", "S2.CellID"],
     "rule": "every run first replays the minimal inputs of the repaired findings F1-F6 (c10Regression). regions: loops (star loops about a pole / cube corner / face-edge midpoint / anywhere, 3..300 vertices, radius 1e-7 .. hemisphere, "
             "counter-clockwise or clockwise = larger than a hemisphere; an edge through / within 0, denormal, 1e-16 .. 1e-3 of a pole incl. LONG "
             "polar edges whose endpoints are nearly antipodal; an edge spanning pi -+ tiny of longitude; nearly antipodal adjacent vertices; thin strips "
@@ -607,8 +608,9 @@ PROPS = {
 
 PROPS["C16"] = {
     # quick ~ 40 s on 16 cores (0.9 ms / line in the oracle), thorough ~ 6 min
+    "translators": ["translator_c16"],
     "generators": [("c16", 64000, 1600000)],
-    "modules": ["S2.EdgeNum", "S2.IA", "S2.Pred", "S2.Exact", "S2.Contain", "S2.STUV", "S2.F64"],
+    "modules": ["S2.Generated.EdgeNumFns", "S2.EdgeNum", "S2.IA", "S2.Pred", "S2.Exact", "S2.Contain", "S2.STUV", "S2.F64"],
     "rule": "op isect: crossing edge pairs (emitted only when s2.CrossingSign == Cross and the two great circles are exactly identical or "
             "at an angle >= 1.05e-15, checked in exact rational arithmetic by the generator and again by the oracle) from 8 classes: generic "
             "(crossing angle log-uniform 1e-15..pi/2, lengths log-uniform 1e-300..3.1), tiny edges around axis points (1e-300..1e-9), crossing "
@@ -637,8 +639,9 @@ PROPS["C16"] = {
 }
 PROPS["C17"] = {
     # quick ~ 50 s on 16 cores (15 ms / line: ~50 soft-float distance evaluations per pedist line), thorough ~ 8 min
+    "translators": ["translator_c16"],
     "generators": [("c17", 24000, 480000)],
-    "modules": ["S2.EdgeNum", "S2.IA", "S2.Pred", "S2.Exact", "S2.Contain", "S2.STUV", "S2.F64"],
+    "modules": ["S2.Generated.EdgeNumFns", "S2.EdgeNum", "S2.IA", "S2.Pred", "S2.Exact", "S2.Contain", "S2.STUV", "S2.F64"],
     "rule": "pedist (60 %): edges degenerate / 1e-15 .. pi-1e-9 long, axis-aligned or random; query x = a, b, +-1..2 ulps, on the edge "
             "(Interpolate) and nudged / displaced perpendicular by 1e-17..1e-3, beyond the ends, the pole of the edge exactly and nudged, "
             "antipodes of a, b, midpoint and on-edge points exactly and nudged, ~90 degrees away, uniform; thresholds = computed "
@@ -677,8 +680,9 @@ PROPS.update({
         # (generator, quick n, thorough n); n = generated loops in total (16 shards).  Every loop gives one c18turn, one
         # c18area, ~1.7 c18ta3, and (when applicable) c18cent / c18surf lines, every 6th iteration a c18parea line.
         # quick ~ 20-30 s per shard (one 10^4-vertex loop costs ~10 s: List-indexed faithful model), thorough ~ 4-5 min.
+        "translators": ["translator_c10"],
         "generators": [("c18", 12000, 130000)],
-        "modules": ["S2.Measures", "S2.Contain", "S2.Pred", "S2.Exact", "S2.STUV", "S2.F64"],
+        "modules": ["S2.Generated.MeasureFns", "S2.Measures", "S2.Contain", "S2.Pred", "S2.Exact", "S2.STUV", "S2.F64"],
         "rule": "valid loops (unit vertices, pairwise different, no antipodal neighbours, no crossing of non-adjacent edges — checked with the "
                 "library's exact predicates): regular and jittered star-shaped loops about a pole / cube corner / axis point / anywhere, radius 1e-6 .. 1.45; "
                 "tiny loops of 6e-8 .. 6e-7 rad (1e-14 .. 1e-12 sr), snapped to level-30 cell centres or not; slivers (out along an arc of "
@@ -733,8 +737,9 @@ PROPS.update({
     "C20": {
         # (generator, quick n, thorough n): n = general tessellator cases + n coarse-tolerance cases, the cheaper ops are emitted 2n times each.
         # measured: n = 9600 -> 115 290 lines, 8 s wall on 16 cores (harness + oracle); thorough ~ 2 min
+        "translators": ["translator_c10"],
         "generators": [("c20", 9600, 96000)],
-        "modules": ["S2.Approx", "S2.F64", "S2.F64Extra", "S2.STUV", "S2.CellID", "S2.Hilbert"],
+        "modules": ["S2.Generated.ApproxFns", "S2.Approx", "S2.F64", "S2.F64Extra", "S2.STUV", "S2.CellID", "S2.Hilbert"],
         "rule": "c20tess (n general cases + n cases with tolerance 10^U(-1,0) or 1 rad): geodesic edges (proj) / planar edges (unproj) x {plate carree, mercator} x scales {pi, 180, 1, 2^20, 1e-3, "
                 "20037508.34 (web mercator metres), 0.5, 648000 (arc seconds)} x tolerances {1e-13, 1, 10^U(-13,-11), 10^U(-2,0), 10^U(-13,0)}; "
                 "edge centre class: equator crossing / antimeridian crossing / both / high latitude (plate carree to 89.9 deg, mercator to 85 deg, "
